@@ -12,19 +12,19 @@ Inductive bfn :=
 | B_Obj_keys | B_Obj_values | B_Obj_items | B_Obj_iter | B_Obj_callProp
 | B_Base_eq | B_Base_at | B_Base_bear | B_Base_proto
 | B_Int_add | B_Int_sub | B_Int_mul | B_Int_pow | B_Int_div | B_Int_fdiv | B_Int_mod | B_Int_cmp
-| B_Int_eq | B_Int_neq | B_Int_neg | B_Int_B | B_Int_iter | B_Int_new | B_Int_bear | B_Int_incBy
+| B_Int_eq | B_Int_neq | B_Int_neg | B_Int_B | B_Int_iter | B_Int_new | B_Int_bear | B_Int_incBy | B_Int_at
 | B_Str_add | B_Str_mul | B_Str_eq | B_Str_cmp | B_Str_B | B_Str_len | B_Str_at | B_Str_iter | B_Str_new
 | B_Arr_add | B_Arr_mul | B_Arr_eq | B_Arr_B | B_Arr_len | B_Arr_at | B_Arr_iter | B_Arr_new | B_Arr_call
 | B_Arr_has | B_Arr_join | B_Arr_O | B_Arr_M
 | B_Map_eq | B_Map_B | B_Map_len | B_Map_at | B_Map_iter | B_Map_keys | B_Map_values | B_Map_items
 | B_Range_eq | B_Range_B | B_Range_iter | B_Range_new | B_Range_start | B_Range_stop | B_Range_step
 | B_Nil_eq | B_Nil_B | B_Nil_new | B_Nil_add | B_Nil_sub | B_Nil_mul
-| B_Func_call | B_Func_eq | B_Func_B
+| B_Func_call | B_Func_eq | B_Func_B | B_Num_floor
 | B_Iter_new | B_Iter_next | B_Iter_iter | B_Iter_eq | B_Iter_B
 | B_EVal_A | B_EVal_val | B_EVal_err | B_EVal_or | B_EVal_fmap
 | B_EErr_A | B_EErr_val | B_EErr_err | B_EErr_or | B_EErr_fmap
 | B_Err_new (kind : string) | B_Err_eq | B_Err_msg | B_Err_type
-| B_Kernel_assert | B_Kernel_assertEq
+| B_Kernel_assert | B_Kernel_assertEq | B_Kernel_assertRaises
 | B_Recur (fid : nat)                 (* the `recur` injected into an iterator's frame *)
 | B_Unknown (name : string).
 
@@ -38,7 +38,7 @@ Definition bfn_table : list (string * bfn) :=
    ("Int#+", B_Int_add); ("Int#-", B_Int_sub); ("Int#*", B_Int_mul); ("Int#**", B_Int_pow);
    ("Int#/", B_Int_div); ("Int#//", B_Int_fdiv); ("Int#%", B_Int_mod); ("Int#<=>", B_Int_cmp);
    ("Int#==", B_Int_eq); ("Int#!=", B_Int_neq); ("Int#-%", B_Int_neg); ("Int#B", B_Int_B);
-   ("Int#_iter", B_Int_iter); ("Int#new", B_Int_new); ("Int#bear", B_Int_bear); ("Int#_incBy", B_Int_incBy);
+   ("Int#_iter", B_Int_iter); ("Int#new", B_Int_new); ("Int#bear", B_Int_bear); ("Int#_incBy", B_Int_incBy); ("Int#at", B_Int_at);
    ("Str#+", B_Str_add); ("Str#*", B_Str_mul); ("Str#==", B_Str_eq); ("Str#<=>", B_Str_cmp);
    ("Str#B", B_Str_B); ("Str#len", B_Str_len); ("Str#at", B_Str_at); ("Str#_iter", B_Str_iter);
    ("Str#new", B_Str_new);
@@ -52,7 +52,7 @@ Definition bfn_table : list (string * bfn) :=
    ("Range#start", B_Range_start); ("Range#stop", B_Range_stop); ("Range#step", B_Range_step);
    ("Nil#==", B_Nil_eq); ("Nil#B", B_Nil_B); ("Nil#new", B_Nil_new); ("Nil#+", B_Nil_add);
    ("Nil#-", B_Nil_sub); ("Nil#*", B_Nil_mul);
-   ("Func#call", B_Func_call); ("Func#==", B_Func_eq); ("Func#B", B_Func_B);
+   ("Func#call", B_Func_call); ("Func#==", B_Func_eq); ("Func#B", B_Func_B); ("Num#floor", B_Num_floor);
    ("Iter#new", B_Iter_new); ("Iter#next", B_Iter_next); ("Iter#_iter", B_Iter_iter);
    ("Iter#==", B_Iter_eq); ("Iter#B", B_Iter_B);
    ("EitherVal#A", B_EVal_A); ("EitherVal#val", B_EVal_val); ("EitherVal#err", B_EVal_err);
@@ -65,7 +65,12 @@ Definition bfn_table : list (string * bfn) :=
    ("SyntaxErr#new", B_Err_new "SyntaxErr"); ("TypeErr#new", B_Err_new "TypeErr");
    ("ValueErr#new", B_Err_new "ValueErr"); ("ZeroDivisionErr#new", B_Err_new "ZeroDivisionErr");
    ("Err#==", B_Err_eq); ("Err#msg", B_Err_msg); ("Err#type", B_Err_type);
-   ("Kernel#assert", B_Kernel_assert); ("Kernel#assertEq", B_Kernel_assertEq)].
+   ("Kernel#assert", B_Kernel_assert); ("Kernel#assertEq", B_Kernel_assertEq);
+   ("Kernel#assertRaises", B_Kernel_assertRaises)].
+
+Scheme Equality for ascii.
+Scheme Equality for string.
+Scheme Equality for bfn.
 
 Fixpoint assoc {A} (k : string) (l : list (string * A)) : option A :=
   match l with
